@@ -993,6 +993,13 @@ func (c *stateCtx) runPoolWit(d *delivery, o *outcome, base *caseRec, bad func(w
 		o.class, o.result, o.errText = "n/a", "n/a", errClass(err)
 		return
 	}
+	if err != nil && strings.Contains(err.Error(), "did not halt") && strings.Contains(err.Error(), "witness check failed") {
+		// a set-up transaction of the committee was signed by the committee in office when it was built and the
+		// block that carries it installs another one (states right before an epoch boundary): the history does
+		// not exist in this state - not applicable, counted.
+		o.class, o.result, o.errText = "n/a", "n/a", "set-up signed by the outgoing committee"
+		return
+	}
 	if err != nil {
 		o.harness = "history cannot be built: " + err.Error()
 		return
